@@ -199,6 +199,17 @@ def c_file_rewritten(rng, W):
             'probe_files': {f: {'text': v2}}}
 
 
+def c_xspace(rng, W):
+    # tables of a package extended while it works under another language
+    a = W.word()
+    dfn = '\\newcommand{\\yal}{YaLafi\\xspace}\n'
+    return {'name': 'package_table:xspace',
+            'pol': dfn + '\\yal ist da, \\yal. Und \\yal "a \\yal\n',
+            'pol_opts': {'lang': rng.choice(['de', 'de-DE']), 'pack': '*'},
+            'probe': dfn + 'The \\yal "filter" %s \\yal. \\yal\'s \\yal-x \\yal x.\n' % a,
+            'probe_opts': {'lang': rng.choice(['en', 'en-GB', 'ru']), 'pack': '*'}}
+
+
 def c_lang_option(rng, W):
     a, b = W.word(), W.word()
     return {'name': 'language_option',
@@ -326,7 +337,7 @@ def c_recovery(rng, W):
 
 CARRIERS = [c_newcommand, c_newcommand, c_renewcommand, c_newtheorem, c_package,
             c_package, c_cleveref, c_docclass, c_language, c_language,
-            c_lang_option, c_ienc, c_file_rewritten, c_file_rewritten, c_babel_table, c_babel_table, c_rotation, c_rotation, c_items, c_glossary,
+            c_lang_option, c_ienc, c_xspace, c_file_rewritten, c_file_rewritten, c_babel_table, c_babel_table, c_rotation, c_rotation, c_items, c_glossary,
             c_glossary, c_flows, c_unknowns, c_option_flag, c_option_flag,
             c_modparms, c_recovery]
 
